@@ -77,6 +77,7 @@ def run(ctx) -> Result:
     piv = proj.method(rnd, "_get_pivot")
     comp = proj.method(absc, "compute_consensus_rankings")
     res.saw(where, ks, piv, comp)
+    HOOK_NAMES.update(pivot=piv.name, where=where.name, sort=ks.name)
     res.rule("V1", "status-count vector and the three vdot costs equal the definitional costs (symbolic B, T)", 6)
     res.rule("V2", "decision tree over the 13 weak orderings of (before, tied, after) per status", 6)
     res.rule("V3", "three-way partition and emission order around the pivot (27 sign assignments)", 1)
@@ -198,7 +199,7 @@ def _check_wiring(res: Result, proj, rnd, absc, piv, ks, comp):
     # pivot
     id_map = w.call(ds, "mapping_elem_id")
     remaining = [e for e in id_map][1:3]
-    st, pv = w.safe("_get_pivot", w.rt.call_method, alg, "_get_pivot", id_map, list(remaining), w.call(ds, "get_positions"),
+    st, pv = w.safe("_get_pivot", w.rt.call_method, alg, piv.name, id_map, list(remaining), w.call(ds, "get_positions"),
                     [list(pen[0]), list(pen[1])])
     good = st == "ok" and len(choices) == 1 and len(choices[0]) == len(remaining) and \
         all(any(x is y for y in remaining) for x in choices[0]) and any(pv is y for y in remaining)
@@ -245,6 +246,9 @@ def run_v3_only(res: Result, proj):
 def check_emission(res: Result, proj, rule: str):
     absc = proj.cls(MOD_ABS, "KwikSortAbs")
     ks = proj.method(absc, "_kwik_sort")
+    rnd_ = proj.cls(MOD_RND, "KwikSortRandom")
+    HOOK_NAMES.update(pivot=proj.method(rnd_, "_get_pivot").name, where=proj.method(rnd_, "_where_should_it_be").name,
+                      sort=ks.name)
     res.saw(ks)
     # ------------------------------------------------------------------ V3
     bad = None
@@ -281,6 +285,10 @@ def check_emission(res: Result, proj, rule: str):
 PIVOT_PROBLEMS: List[str] = []
 
 
+HOOK_NAMES = {"pivot": "_get_pivot", "where": "_where_should_it_be", "sort": "_kwik_sort"}     # today's names; run() updates
+                                                                                             # them with the anchors found
+
+
 def _eval_kwik(ks, remaining: List[str], sign_of) -> List:
     out: List = []
     p = ks.param_names  # self, consensus, remaining_elements, mapping_element_id, positions, scoring_scheme
@@ -312,7 +320,8 @@ def _eval_kwik(ks, remaining: List[str], sign_of) -> List:
 
     env = {"self": Sym("self"), p[1]: out, p[2]: list(remaining),
            p[3]: {e: "id_" + e for e in ["p", "a", "b", "c"]}, p[4]: Sym("POS"), p[5]: Sym("SCH")}
-    evl = Evaluator(env, funcs={"._get_pivot": get_pivot, "._where_should_it_be": where, "._kwik_sort": rec,
+    evl = Evaluator(env, funcs={"." + HOOK_NAMES["pivot"]: get_pivot, "." + HOOK_NAMES["where"]: where,
+                                "." + HOOK_NAMES["sort"]: rec,
                                 "Element": lambda ev, call: "NOPIVOT"})
     try:
         evl.run(ks.body_without_docstring())
